@@ -92,6 +92,8 @@ def cases(rec):
         yield cm["duration"], cm["dt"], req
     yield 3091, 1.1, thirds
     yield 1000, 10, lin
+    for D, dt in ((10, 3), (10, 2.5), (7, 10), (100, 0.7)):      # (no request at 0 or 1)
+        yield D, dt, [0.25, 0.5]
     for D in list(range(1, 200)) + [250, 1000, 4000, 9973, 10000]:
         for dt in (0.1, 0.3, 0.7, 1.1, 1.3, 2.2, 10 / 3, 7.0, 10.0, 12345.0):
             if D / dt <= 40000:
